@@ -577,20 +577,24 @@ class InboundStream:
             if start_pos is None:
                 ordered = not (chunk.flags & SCTP_DATA_UNORDERED)
                 if not (chunk.flags & SCTP_DATA_FIRST_FRAG):
-                    if ordered:
-                        break
-                    else:
-                        pos += 1
-                        continue
+                    # the beginning of this message is missing (or will never
+                    # come): it must not block what follows
+                    pos += 1
+                    continue
                 if ordered and uint16_gt(chunk.stream_seq, self.sequence_number):
-                    break
+                    # not deliverable yet, but a chunk with a later TSN may carry
+                    # the sequence number the stream is waiting for
+                    pos += 1
+                    continue
                 expected_tsn = chunk.tsn
                 start_pos = pos
             elif chunk.tsn != expected_tsn:
+                # the message which starts at start_pos is incomplete
+                start_pos = None
                 if ordered:
-                    break
+                    # look at this chunk again, it may start another message
+                    continue
                 else:
-                    start_pos = None
                     pos += 1
                     continue
 
